@@ -336,6 +336,11 @@ class SgzConverter(SgzReader):
                     # Header arrays were last loaded with padding (e.g. by get_tracefield_values), start afresh
                     self.clear_variant_headers()
                 self.read_variant_headers()
+                if self.get_file_source_code() != Filetype.SEGY.value and len(self.zslices) > 1:
+                    # segyio derives the interval from spec.samples by truncation, which loses a microsecond
+                    # whenever the millisecond axis is inexact in floating point; no SEG-Y header is stored to
+                    # override it for these sources, so state it here
+                    segyfile.bin[segyio.BinField.Interval] = int(round(1000.0 * (self.zslices[1] - self.zslices[0])))
                 # Doing this is fine now there is decent caching on the loader
                 segyfile.trace = [self.get_trace(i) for i in range(self.tracecount)]
                 segyfile.header = [self.regenerate_trace_header(i) for i in range(self.tracecount)]
